@@ -1370,7 +1370,8 @@ def extract_from_code(code, gettext_functions):
                 if isinstance(arg, _ast_Str) \
                         and isinstance(_ast_Str_value(arg), six.text_type):
                     strings.append(_ast_Str_value(arg))
-                elif isinstance(arg, _ast_Str):
+                elif isinstance(arg, _ast_Str) \
+                        and isinstance(_ast_Str_value(arg), bytes):
                     strings.append(six.text_type(_ast_Str_value(arg), 'utf-8'))
                 elif arg:
                     strings.append(None)
